@@ -2,7 +2,7 @@
 """Run the repository's baseline suite (guard off) and compare with BASELINE.json's stable_pass list."""
 import json, subprocess, sys, os
 env = dict(os.environ, GOFLAGS="-mod=mod", GOPROXY="off", GOSUMDB="off", GOTOOLCHAIN="local")
-p = subprocess.run("cd /repo && go test -json -vet=off -count=1 -timeout 25m ./...", shell=True, capture_output=True, text=True, env=env)
+p = subprocess.run("cd " + os.environ.get("BASELINE_REPO", "/repo") + " && go test -json -vet=off -count=1 -timeout 25m ./...", shell=True, capture_output=True, text=True, env=env)
 passed = set()
 failed = set()
 for line in p.stdout.splitlines():
